@@ -31,6 +31,20 @@ pub fn main() -> ! {
                 .collect();
             json!({"frames": r})
         }
+        Some("debugdump") => {
+            // Debug text (every decoded field) and checksum of each frame, decoded in list order
+            let r: Vec<Value> = frames
+                .iter()
+                .map(|b| match b {
+                    Some(b) => match Frame::from_bytes(b) {
+                        Ok(f) => json!(format!("{f:?}")),
+                        Err(_) => json!("Err"),
+                    },
+                    None => json!("nohex"),
+                })
+                .collect();
+            json!({"frames": r})
+        }
         Some("trackdump") => {
             let rx = (v["rx"][0].as_f64().unwrap_or(0.0), v["rx"][1].as_f64().unwrap_or(0.0));
             let range = v["range"].as_f64().unwrap_or(500.0);
